@@ -688,7 +688,14 @@ def evaluate_payload_template(input, context, template):
 
         if v_is_path_or_intrinsic:
             if v == "$":  # It's a path representing the root node
-                v = clone(input)  # clone to avoid potential circular reference
+                """
+                Copy to avoid potential circular reference. Use a plain deep
+                copy rather than clone(), which fails for inputs that are not
+                objects or arrays and would also evaluate any members of the
+                *input* whose name happens to end with ".$" as if the input
+                were itself a Payload Template.
+                """
+                v = copy.deepcopy(input)
             elif v.startswith("$"):  # It's a path
                 v = apply_path(input, context, v)
             else:  # It's an Intrinsic Function
